@@ -414,7 +414,13 @@ func pick(v any, key string) any {
 
 // Validate feeds observation events to TLC (Trace_RT) in parallel chunks and gathers the reports.
 func Validate(f *Family, sc *work.Scratch, tag string, events []*obsEvent, devs []string) ([]Report, Tally, *tlc.Result, error) {
-	const chunk = 1500
+	chunk := (len(events) + 13) / 14
+	if chunk < 40 {
+		chunk = 40
+	}
+	if chunk > 1500 {
+		chunk = 1500
+	}
 	type part struct {
 		lo  int
 		res *tlc.Result
@@ -433,7 +439,7 @@ func Validate(f *Family, sc *work.Scratch, tag string, events []*obsEvent, devs 
 		judge = "verdict"
 	}
 	var wg sync.WaitGroup
-	sem := make(chan struct{}, 12)
+	sem := make(chan struct{}, 14)
 	for pi, p := range parts {
 		wg.Add(1)
 		sem <- struct{}{}
